@@ -1096,6 +1096,34 @@ class ModelsMixin(object):
             return SSeq(s.term, s.elem, s.struct)
         if name == "__len__":
             return self.length_of(s)
+        if name == "remove":
+            # list.remove(x): drops the FIRST element y with `y is x or y == x` (== is the class's own
+            # __eq__, evaluated through its contract); ValueError when there is none.
+            x = args[0]
+            if not isinstance(x, SObj):
+                self.unsupported("remove of a non-object from a symbolic sequence")
+            found = z3.Bool(self.fresh_name("rm.found"))
+            if x.ref is not None:
+                self.assume_raw(z3.Implies(z3.Contains(s.term, z3.Unit(x.ref)), found))
+            if not self.branch(found):
+                self.py_raise(ValueError, "list.remove(x): x not in list")
+            A = SSeq(z3.Const(self.fresh_name("rm.before"), RSEQ), s.elem, ("var",))
+            Bq = SSeq(z3.Const(self.fresh_name("rm.after"), RSEQ), s.elem, ("var",))
+            y = self.fresh_ref("rm.y")
+            self.assume_raw(s.term == z3.Concat(A.term, z3.Unit(y), Bq.term))
+            yo = s.elem.materialize(self, y)
+            same = self.identical(yo, x) if x.ref is not None else False
+            if not same:
+                eqv = self.eq(yo, x)
+                self.assume(eqv if isinstance(eqv, SBool) else z3.BoolVal(bool(eqv)))
+            old = SSeq(s.term, s.elem, s.struct)
+            unit = SSeq(z3.Unit(y), s.elem, ("snoc", SSeq(z3.Empty(RSEQ), s.elem, ("empty",)), yo))
+            old.struct = ("concat", SSeq(z3.Concat(A.term, z3.Unit(y)), s.elem, ("concat", A, unit)), Bq)
+            self.ghost["rm_before"], self.ghost["rm_after"], self.ghost["rm_removed"] = A, Bq, yo
+            self.ghost["rm_old"] = old
+            s.term = z3.Concat(A.term, Bq.term)
+            s.struct = ("concat", A, Bq)
+            return None
         self.unsupported("method %s of a symbolic sequence" % name)
 
     def seq_assume_valid(self, term, elem):
